@@ -5,7 +5,13 @@ use texlang::*;
 
 /// Get the `\chardef` command.
 pub fn get_chardef<S: TexlangState>() -> command::BuiltIn<S> {
-    command::BuiltIn::new_execution(chardef_primitive_fn)
+    command::BuiltIn::new_execution(chardef_primitive_fn).with_tag(chardef_tag())
+}
+
+static CHARDEF_TAG: command::StaticTag = command::StaticTag::new();
+
+pub fn chardef_tag() -> command::Tag {
+    CHARDEF_TAG.get()
 }
 
 fn chardef_primitive_fn<S: TexlangState>(
